@@ -40,6 +40,11 @@ def run(chk):
         n = rng.choice([64, 128, 300, 600])
         lines.append('udp #%x #%x #%x #%x #%x #%x #%x' % (sockets, workers, queue, blocking, n, beh, rng.randrange(1 << 30)))
     impl = [impl_run(chk.harness, [l], timeout=60.0, limit_mem=False)[0] for l in lines]
+    # a run that met a socket of another process on its port says nothing about the receiver: repeated on a fresh port
+    for _ in range(3):
+        for i, o in enumerate(impl):
+            if 'foreignport' in o:
+                impl[i] = impl_run(chk.harness, [lines[i]], timeout=60.0, limit_mem=False)[0]
     verdicts = model_run(GEN, ['trace ' + o for o in impl])
     chk.evals += len(lines)
     chk.count('receiver runs', len(lines))
